@@ -11,7 +11,8 @@ func c18(args []string) int {
 		"(c) sessions of 3-20 ops: header blocks (1-8 fields: static-table names, repeated fields, fresh names, values 0..5000 bytes, 12% sensitive) interleaved with SetMaxDynamicTableSize from {0,1,31..65536}, encoded by MOSN's and by x/net's encoder, decoded whole or in random chunks by MOSN's decoder, x/net's decoder and the model; " +
 		"(d) blocks of random VALID representations (any index, either string coding, all three literal kinds, size updates, non-canonical integers). " +
 		"A session is non-trivial with >= 2 blocks; distinct by full content. " +
-		"frames: sequences of 1-8 valid frames of all ten types and unknown types (DATA/HEADERS/PUSH_PROMISE padding, priority, 0-5 CONTINUATIONs incl. empty fragments, header blocks from one x/net hpack encoder per connection) written by x/net's Framer, parsed by MOSN's MFramer under several chunkings, by x/net's Framer and by the model; every frame writer of MFramer and x/net against the model serialiser."
+		"frames: sequences of 1-8 valid frames of all ten types and unknown types (DATA/HEADERS/PUSH_PROMISE padding, priority, 0-5 CONTINUATIONs incl. empty fragments, header blocks from one x/net hpack encoder per connection) written by x/net's Framer, parsed by MOSN's MFramer under several chunkings, by x/net's Framer and by the model; every frame writer of MFramer and x/net against the model serialiser. " +
+		"connections: 2-5 responses per real MServerConn (random header maps, 25% larger than one frame => CONTINUATION, 0-2 SETTINGS_HEADER_TABLE_SIZE changes before each) and 1-4 requests per real MClientConn, read back by x/net's Framer + hpack decoder and compared with the header maps that were set."
 	ss := newShardSet(run)
 	hpackInts(run, ss)
 	hpackHuffman(run, ss)
@@ -23,6 +24,7 @@ func c18(args []string) int {
 	framesStreams(run, ss, "c18", true, run.N(60, 600), false)
 	framesWriters(run, ss, run.N(40, 400))
 	framesPreface(run, ss)
+	connHeaders(run, run.N(40, 400))
 	ss.close()
 	return run.Finish()
 }
